@@ -26,7 +26,7 @@ func init() {
 		Thorough:    sim.Budget{Runs: 400000, WallS: 780},
 		RunsPerProc: 100,
 		LevelText: "seeded search over concurrent workloads and interleavings of the exported Round and Block operations under the Go race detector (-race build of the instrumented copy); " +
-			"every report is a violation whose signature is the pair of racing source lines; a clean batch is evidence, not proof",
+			"every report is a violation whose signature is the pair of racing functions (file:line of both accesses in the detail); a clean batch is evidence, not proof",
 		LevelNote: "sub-targets Round (notarized/proposed-block access, phase, finalizing state, shares, seed) and Block (ticket merging, state status, block state, clone). " +
 			"miner.ValidateTransactions (shared cancel/roundMismatch flags) needs a full chain and is NOT exercised here. The detector only sees accesses the explored runs execute. " +
 			"Races found on the pinned tree are listed in known_findings.d/threads.json.",
@@ -53,7 +53,7 @@ var c44Kinds = []string{
 	"r.setphase", "r.getphase", "r.finalize", "r.isfinalized", "r.setfinalizing", "r.condreset", "r.setseed", "r.getseed",
 	"r.share", "r.getshares", "r.settimeout", "r.gettimeout", "r.setvrf", "r.getvrf", "r.blockhash", "r.clone", "r.minerrank",
 	// block: tickets
-	"b.addticket", "b.merge", "b.gettickets", "b.ticketsize", "b.unknown", "b.setprev", "b.getprev",
+	"b.addticket", "b.merge", "b.settickets", "b.gettickets", "b.ticketsize", "b.unknown", "b.setprev", "b.getprev",
 	// block: status
 	"b.setstatus", "b.getstatus", "b.iscomputed", "b.setblockstate", "b.getblockstate", "b.setnotarized", "b.isnotarized",
 	"b.setfinalised", "b.isfinalised", "b.setverif", "b.getverif", "b.addext", "b.getext", "b.clone", "b.setseed", "b.getseed",
@@ -135,12 +135,12 @@ func callGetRandomSeed(r *round.Round) int64 { return r.GetRandomSeed() }
 func callHasRandomSeed(r *round.Round) bool { return r.HasRandomSeed() }
 
 var touchOps = map[string]string{
-	"touchNotarizedBlocks":   "chaincore/round/entity.go:(*Round).GetNotarizedBlocks result",
-	"touchProposedBlocks":    "chaincore/round/entity.go:(*Round).GetProposedBlocks result",
-	"callSetRoundRandomSeed": "chaincore/block/entity.go:(*UnverifiedBlockBody).SetRoundRandomSeed",
-	"callGetRoundRandomSeed": "chaincore/block/entity.go:(*UnverifiedBlockBody).GetRoundRandomSeed",
-	"callGetRandomSeed":      "chaincore/round/entity.go:(*Round).GetRandomSeed",
-	"callHasRandomSeed":      "chaincore/round/entity.go:(*Round).HasRandomSeed",
+	"touchNotarizedBlocks":   "chaincore/round.(*Round).GetNotarizedBlocks[result]",
+	"touchProposedBlocks":    "chaincore/round.(*Round).GetProposedBlocks[result]",
+	"callSetRoundRandomSeed": "chaincore/block.(*UnverifiedBlockBody).SetRoundRandomSeed",
+	"callGetRoundRandomSeed": "chaincore/block.(*UnverifiedBlockBody).GetRoundRandomSeed",
+	"callGetRandomSeed":      "chaincore/round.(*Round).GetRandomSeed",
+	"callHasRandomSeed":      "chaincore/round.(*Round).HasRandomSeed",
 }
 
 func execC44(env *sim.Env, p *sim.Plan) *sim.Result {
@@ -259,6 +259,8 @@ func execC44(env *sim.Env, p *sim.Plan) *sim.Result {
 			return sb(b.AddVerificationTicket(tickets[int(x)%len(tickets)]))
 		case "b.merge":
 			b.MergeVerificationTickets(subset(x))
+		case "b.settickets":
+			b.SetVerificationTickets(subset(x))
 		case "b.gettickets":
 			return si(int64(len(b.GetVerificationTickets())))
 		case "b.ticketsize":
@@ -403,7 +405,7 @@ func readRaceReports(off int64) ([]raceReport, string) {
 				continue
 			}
 			// frames: function line, then file line, until a blank line
-			loc, top := "", ""
+			loc, where, top := "", "", ""
 			j := i + 1
 			for ; j+1 < len(lines) && strings.TrimSpace(lines[j]) != ""; j += 2 {
 				fn := strings.TrimSpace(lines[j])
@@ -414,8 +416,8 @@ func readRaceReports(off int64) ([]raceReport, string) {
 				if top == "" {
 					top = fn + " " + filepath.Base(m[1]) + ":" + m[2]
 				}
-				if l := mapLocation(fn, m[1], m[2]); l != "" {
-					loc = l
+				if l, w := mapLocation(fn, m[1], m[2]); l != "" {
+					loc, where = l, w
 					break
 				}
 			}
@@ -423,7 +425,7 @@ func readRaceReports(off int64) ([]raceReport, string) {
 				loc = "unattributed"
 			}
 			locs = append(locs, loc)
-			first = append(first, strings.SplitN(lines[i], " at ", 2)[0]+" "+top)
+			first = append(first, strings.SplitN(lines[i], " at ", 2)[0]+" "+where+" (top frame "+top+")")
 			i = j
 		}
 		if len(locs) < 2 {
@@ -443,35 +445,41 @@ func readRaceReports(off int64) ([]raceReport, string) {
 	return out, ""
 }
 
-// mapLocation maps a frame to "<path relative to the repository module>:<line>"
-// of the original source (the rewriter keeps line numbers), or to the operation
-// a harness reader function stands for; "" for frames outside the code under test.
-func mapLocation(fn, file, line string) string {
+// mapLocation maps a frame of the code under test to (signature element, position):
+// the signature element is "<package path relative to the repository module>.<function>"
+// (stable while unrelated lines of the file move: the repository receives fix
+// commits while this check is in use), the position is "<relative file>:<line>"
+// of the original source (the rewriter keeps line numbers) and goes into the
+// violation's detail. Harness reader / caller functions map to the operation
+// they stand for; ("", "") for frames outside the code under test.
+func mapLocation(fn, file, line string) (string, string) {
 	file = filepath.ToSlash(file)
+	fname := strings.TrimSuffix(strings.TrimSpace(fn), "()")
+	fname = strings.TrimPrefix(fname, "0chain.net/")
 	if i := strings.Index(file, "/src/"); i >= 0 && strings.Contains(file, "verif-threads-") {
-		return file[i+len("/src/"):] + ":" + line // scratch copy
+		return fname, file[i+len("/src/"):] + ":" + line // scratch copy
 	}
-	for _, root := range []string{instrInfo().RepoMod, repoMod(), "0chain.net"} {
+	for _, root := range []string{instrInfo().RepoMod, repoMod()} {
 		root = filepath.ToSlash(root)
 		if root != "" && strings.HasPrefix(file, root+"/") {
 			rel := file[len(root)+1:]
 			for _, t := range targetPkgs {
 				if strings.HasPrefix(rel, t+"/") {
-					return rel + ":" + line
+					return fname, rel + ":" + line
 				}
 			}
-			return ""
+			return "", ""
 		}
 	}
 	for name, op := range touchOps {
 		if strings.Contains(fn, "threads."+name+"(") {
-			return op
+			return op, "harness " + name
 		}
 	}
 	if strings.Contains(fn, "verif/worlds/threads.execC44.func") {
 		// data built by the harness inside an operation and handed to the code under test
 		// (a ticket slice that MergeVerificationTickets stores as it is)
-		return "harness-built-argument"
+		return "harness-built-argument", "harness"
 	}
-	return ""
+	return "", ""
 }
